@@ -369,6 +369,9 @@ def run(prop_id: str, tier: str, seed: int) -> vlib.Outcome:
         "async, futures/streams, error-context handles",
         "types and option combinations outside the enumerated corpus; lists longer than the bound; strings longer than 2 bytes",
         "UTF-8 validation inside String::from_utf8 (stubbed, see assumptions)",
+        "the ALIGNMENT passed to dealloc (Kani's __rust_dealloc model checks the size against the allocation, not the alignment; "
+        "allocator stubs that could record it turned out unreliable in Kani 0.68 -- rustgen/assemble.py)",
+        "which buffer leaked (argument vs result): CBMC's --memory-leak-check reports one 'never freed' property per harness",
     ]
     out.trusted_base = [
         "Kani %s / CBMC memory model and SAT back end" % kani.kani_version(),
